@@ -174,6 +174,18 @@ impl<U: TimeUnitTrait> DateTime<U> {
     /// # Returns
     ///
     /// A `TResult<Self>` containing the parsed `DateTime` or an error.
+    /// Converts a parsed calendar value, rejecting instants the unit cannot represent
+    /// (the nanosecond unit only spans 1677-09-21 .. 2262-04-11).
+    fn from_parsed(dt: NaiveDateTime) -> TResult<Self>
+    where
+        Self: From<CrDateTime<Utc>>,
+    {
+        if U::unit() == TimeUnit::Nanosecond && dt.and_utc().timestamp_nanos_opt().is_none() {
+            tbail!(ParseError:"datetime {} is out of range for nanosecond resolution", dt)
+        }
+        Ok(dt.into())
+    }
+
     #[inline(always)]
     pub fn parse(s: &str, fmt: Option<&str>) -> TResult<Self>
     where
@@ -181,18 +193,18 @@ impl<U: TimeUnitTrait> DateTime<U> {
     {
         if let Some(fmt) = fmt {
             if let Ok(cr_dt) = NaiveDateTime::parse_from_str(s, fmt) {
-                Ok(cr_dt.into())
+                Self::from_parsed(cr_dt)
             } else if let Ok(cr_date) = NaiveDate::parse_from_str(s, fmt) {
-                Ok(cr_date.into())
+                Self::from_parsed(cr_date.and_hms_opt(0, 0, 0).unwrap())
             } else {
                 tbail!(ParseError:"Failed to parse datetime from string: {}", s)
             }
         } else {
             for fmt in TIME_RULE_VEC.iter() {
                 if let Ok(cr_dt) = NaiveDateTime::parse_from_str(s, fmt) {
-                    return Ok(cr_dt.into());
+                    return Self::from_parsed(cr_dt);
                 } else if let Ok(cr_date) = NaiveDate::parse_from_str(s, fmt) {
-                    return Ok(cr_date.into());
+                    return Self::from_parsed(cr_date.and_hms_opt(0, 0, 0).unwrap());
                 }
             }
             tbail!(ParseError:"Failed to parse datetime from string: {}", s)
